@@ -954,7 +954,12 @@ impl Xot {
     /// If that id does not exist, returns [`None`].
     pub fn xml_id_node(&self, document_node: Node, value: &str) -> Option<Node> {
         let value_nodes = self.id_nodes_map.get(&document_node.get())?;
-        value_nodes.get(value).map(|node_id| Node::new(*node_id))
+        // the table is filled when the document is parsed: an entry whose node
+        // has been removed since must not be handed out
+        value_nodes
+            .get(value)
+            .map(|node_id| Node::new(*node_id))
+            .filter(|node| !self.is_removed(*node))
     }
 }
 
